@@ -19,7 +19,7 @@
 (***************************************************************************)
 EXTENDS Deb822, DebDocsTables
 
-IsList(kind) == kind \in {"archs", "dep", "clist", "slist", "cslist", "mstring", "sums:md5", "sums:sha1", "sums:sha256", "chfiles"}
+IsList(kind) == kind \in {"archs", "dep", "clist", "slist", "cslist", "mstring", "sums:md5", "sums:sha1", "sums:sha256", "sums:sha512", "chfiles"}
 \* model: [present : SUBSET field indices, n : list length used, folded : BOOLEAN]
 ModelValue(row, n) == IF IsList(row[3]) /\ row[3] # "mstring" THEN SubSeq(row[4], 1, n) ELSE row[4]
 
@@ -30,7 +30,7 @@ RenderValue(kind, v, folded) ==
       [] kind = "archs" -> <<SP>> \o Join(v, <<SP>>)
       [] kind \in {"dep", "clist", "cslist"} -> <<SP>> \o Join(v, CommaSep(folded))
       [] kind = "slist" -> <<SP>> \o Join(v, IF folded THEN <<LF, SP>> ELSE <<SP>>)
-      [] kind \in {"sums:md5", "sums:sha1", "sums:sha256"} ->
+      [] kind \in {"sums:md5", "sums:sha1", "sums:sha256", "sums:sha512"} ->
             Concat([k \in 1..Len(v) |-> <<LF, SP>> \o v[k][1] \o <<SP>> \o v[k][2] \o <<SP>> \o v[k][3]])
       [] kind = "chfiles" ->
             Concat([k \in 1..Len(v) |-> <<LF, SP>> \o v[k][1] \o <<SP>> \o v[k][2] \o <<SP>> \o v[k][3] \o <<SP>> \o v[k][4] \o <<SP>> \o v[k][5]])
@@ -42,7 +42,7 @@ RenderDoc(kind, m) ==
               IF i \in m.present /\ Writes(t[i], m) THEN t[i][1] \o <<COLON>> \o RenderValue(t[i][3], ModelValue(t[i], m.n), m.folded) \o <<LF>>
               ELSE <<>>])
 
-AlgOf(kind) == CASE kind = "sums:md5" -> "md5" [] kind = "sums:sha1" -> "sha1" [] kind = "sums:sha256" -> "sha256" [] kind = "chfiles" -> "md5"
+AlgOf(kind) == CASE kind = "sums:md5" -> "md5" [] kind = "sums:sha1" -> "sha1" [] kind = "sums:sha256" -> "sha256" [] kind = "sums:sha512" -> "sha512" [] kind = "chfiles" -> "md5"
 \* the typed view of one field; absent fields have the zero value of their kind
 Zero(kind) == CASE kind = "int" -> 0 [] kind = "bool" -> FALSE
                 [] kind \in {"scalar", "version", "arch", "dep", "mstring"} -> <<>> [] OTHER -> <<>>
@@ -51,7 +51,7 @@ ExpectedField(kind, v) ==
       [] kind = "bool" -> v = <<121, 101, 115>>
       [] kind = "dep" -> Join(v, <<COMMA, SP>>)
       [] kind = "mstring" -> v                      \* compared as lines
-      [] kind \in {"sums:md5", "sums:sha1", "sums:sha256"} -> [k \in 1..Len(v) |-> <<AlgOf(kind), v[k][1], v[k][2], v[k][3]>>]
+      [] kind \in {"sums:md5", "sums:sha1", "sums:sha256", "sums:sha512"} -> [k \in 1..Len(v) |-> <<AlgOf(kind), v[k][1], v[k][2], v[k][3]>>]
       [] kind = "chfiles" -> [k \in 1..Len(v) |-> <<"md5", v[k][1], v[k][2], v[k][5], v[k][3], v[k][4]>>]
       [] OTHER -> v
 FieldAgrees(kind, got, present, v) ==
